@@ -237,6 +237,14 @@ def exportView (flatten : Bool) (sub : List Str) (cams views : List (Str × Nat)
            filename := p.getLastD [] }                      -- path.basename
   | _, _ => none
 
+/-- `_export_openmvg_views`, the loop over `kapture_images_data` -/
+def exportViews (flatten : Bool) (sub : List Str) (cams views : List (Str × Nat)) : List Rec → Option (List View)
+  | [] => some []
+  | r :: rs =>
+    match exportView flatten sub cams views r, exportViews flatten sub cams views rs with
+    | some v, some vs => some (v :: vs)
+    | _, _ => none
+
 /-- `openmvg_images_dir = path.basename(data_root_path)` where `root_path = abspath(join(image_root, sub_root_path))`
   (export_openmvg.py:539-540, 597; import_openmvg.py:114): the last component of the common directory, or the base name
   of the image root when there is no common directory -/
@@ -255,9 +263,11 @@ def importViews (imagesDir : Str) (vs : List View) : List (Nat × Str) :=
 def poseTable (vs : List View) : List (Nat × Nat × Nat) :=
   vs.foldl (fun t v => Dict.set v.idPose (v.idView, v.idIntrinsic) t) []
 
-/-- base name (before `splitext`) of the region files written for an image (export_openmvg.py:693-694, 712-713):
-  `_get_openmvg_image_path(kapture_image_name, flatten)` — the FULL kapture name, not the one relative to sub_root -/
-def regionBaseExport (flatten : Bool) (name : Str) : Str := (mvgPath flatten (splitSlash name)).getLastD []
+/-- base name (before `splitext`) of the region files written for an image (export_openmvg.py, `_export_openmvg_regions`:
+  `_get_openmvg_image_path(relpath(kapture_image_name, sub_root_path) if sub_root_path else kapture_image_name, flatten)`,
+  then `path.basename`) — the same relative name the views carry -/
+def regionBaseExport (flatten : Bool) (sub : List Str) (name : Str) : Str :=
+  (mvgPath flatten (relOf sub name)).getLastD []
 
 /-- base name (before `splitext`) import looks for (import_openmvg.py:442): `path.basename(image_name)` of the imported name -/
 def regionBaseImport (importedName : Str) : Str := (splitSlash importedName).getLastD []
@@ -273,44 +283,78 @@ def trajectoryKey (tbl : List (Nat × Nat × Nat)) (poseId : Nat) : Option (Nat 
 /-- observations of one point for the exported keypoints type, in stored order: (image name, feature index) -/
 abbrev PointObs := List (Str × Nat)
 
-/-- `_export_openmvg_structure` (export_openmvg.py:427-459): key = point index; observations through view ids.
-  `none` = KeyError (an observed image is not in records_camera). -/
+/-- the observations of one point through the view ids (export_openmvg.py, `_export_openmvg_structure`, inner loop);
+  `none` = KeyError (an observed image is not in records_camera) -/
+def exportObs (views : List (Str × Nat)) : PointObs → Option (List (Nat × Nat))
+  | [] => some []
+  | o :: r =>
+    match Dict.get? o.1 views, exportObs views r with
+    | some v, some rest => some ((v, o.2) :: rest)
+    | _, _ => none
+
+/-- `_export_openmvg_structure`: `for point_idx, coords in enumerate(xyz_coordinates)`, key = point index -/
+def exportPoints {α : Type} (views : List (Str × Nat)) : Nat → List (α × PointObs) → Option (List (Nat × α × List (Nat × Nat)))
+  | _, [] => some []
+  | i, (x, obs) :: r =>
+    match exportObs views obs, exportPoints views (i + 1) r with
+    | some os, some rest => some ((i, x, os) :: rest)
+    | _, _ => none
+
 def exportStructure {α : Type} (views : List (Str × Nat)) (pts : List (α × PointObs)) :
-    Option (List (Nat × α × List (Nat × Nat))) :=
-  (pts.zipIdx).mapM (fun pi =>
-    (pi.1.2.mapM (fun o => (Dict.get? o.1 views).map (fun v => (v, o.2)))).map (fun os => (pi.2, pi.1.1, os)))
+    Option (List (Nat × α × List (Nat × Nat))) := exportPoints views 0 pts
 
 /-- `max_point_idx` (import_openmvg.py:371, 377) -/
 def maxKey {β : Type} : List (Nat × β) → Nat
   | [] => 0
   | (k, _) :: r => Nat.max k (maxKey r)
 
-/-- `_import_openmvg_structure` (import_openmvg.py:375-401).  `names` is `view_ids_to_filename`.  Returns the point list
-  and the observations (point, image name, feature) in insertion order; "ValueError" when a view id is unknown.
-  An empty structure sets nothing (`if structure_data_json:`): `(none, [])`. -/
+/-- the observations of one point (import_openmvg.py, `_import_openmvg_structure`, inner loop): the image name through
+  `view_ids_to_kapture_filename.get`; "ValueError" when the view id is unknown (or its name empty) -/
+def importObs (names : List (Nat × Str)) (idx : Nat) : List (Nat × Nat) → Except String (List (Nat × Str × Nat))
+  | [] => Except.ok []
+  | o :: r =>
+    match Dict.get? o.1 names with
+    | some n =>
+      if n = [] then Except.error "ValueError" else
+      match importObs names idx r with
+      | Except.ok rest => Except.ok ((idx, n, o.2) :: rest)
+      | Except.error e => Except.error e
+    | none => Except.error "ValueError"
+
+def importAllObs {α : Type} (names : List (Nat × Str)) : List (Nat × α × List (Nat × Nat)) → Except String (List (Nat × Str × Nat))
+  | [] => Except.ok []
+  | p :: r =>
+    match importObs names p.1 p.2.2 with
+    | Except.error e => Except.error e
+    | Except.ok a =>
+      match importAllObs names r with
+      | Except.ok b => Except.ok (a ++ b)
+      | Except.error e => Except.error e
+
+/-- `points_3d[point_idx] = X` for every entry, then `[points_3d.get(i) or EMPTY for i in range(0, max_point_idx + 1)]`
+  (import_openmvg.py, `_import_openmvg_structure`) -/
+def importPoints {α : Type} (empty : α) (st : List (Nat × α × List (Nat × Nat))) : List α :=
+  let dict : List (Nat × α) := st.foldl (fun t p => Dict.set p.1 p.2.1 t) []
+  (List.range (maxKey st + 1)).map (fun i => (Dict.get? i dict).getD empty)
+
+/-- `_import_openmvg_structure`.  `names` is `view_ids_to_filename`.  Returns the point list and the observations
+  (point, image name, feature) in insertion order.  An empty structure sets nothing (`if structure_data_json:`): `(none, [])`. -/
 def importStructure {α : Type} (names : List (Nat × Str)) (empty : α) (st : List (Nat × α × List (Nat × Nat))) :
     Except String (Option (List α) × List (Nat × Str × Nat)) :=
   if st.isEmpty then Except.ok (none, []) else
-  let obs : Except String (List (List (Nat × Str × Nat))) := st.mapM (fun p =>
-    p.2.2.mapM (fun o => match Dict.get? o.1 names with
-      | some n => if n = [] then Except.error "ValueError" else Except.ok (p.1, n, o.2)
-      | none => Except.error "ValueError"))
-  match obs with
+  match importAllObs names st with
   | Except.error e => Except.error e
-  | Except.ok os =>
-    let dict : List (Nat × α) := st.foldl (fun t p => Dict.set p.1 p.2.1 t) []
-    let pts := (List.range (maxKey st + 1)).map (fun i => (Dict.get? i dict).getD empty)
-    Except.ok (some pts, os.flatten)
+  | Except.ok os => Except.ok (some (importPoints empty st), os)
 
 /-! ## matches -/
 
-/-- `_export_openmvg_matches` (export_openmvg.py:748-757): one block per pair: view ids, then the index pairs.
-  `none` = KeyError. -/
-def exportMatches (views : List (Str × Nat)) (ms : List ((Str × Str) × List (Nat × Nat))) :
-    Option (List ((Nat × Nat) × List (Nat × Nat))) :=
-  ms.mapM (fun m => match Dict.get? m.1.1 views, Dict.get? m.1.2 views with
-    | some i, some j => some ((i, j), m.2)
-    | _, _ => none)
+/-- `_export_openmvg_matches`: one block per pair: the two view ids, then the index pairs.  `none` = KeyError. -/
+def exportMatches (views : List (Str × Nat)) : List ((Str × Str) × List (Nat × Nat)) → Option (List ((Nat × Nat) × List (Nat × Nat)))
+  | [] => some []
+  | m :: r =>
+    match Dict.get? m.1.1 views, Dict.get? m.1.2 views, exportMatches views r with
+    | some i, some j, some rest => some (((i, j), m.2) :: rest)
+    | _, _, _ => none
 
 /-- Python `str < str` (code points, lexicographic) -/
 def strLt : Str → Str → Bool
@@ -328,9 +372,16 @@ def importMatchBlock (names : List (Nat × Str)) (b : (Nat × Nat) × List (Nat 
     else Except.ok ((n1, n2), b.2)
   | _, _ => Except.error "ValueError"
 
-def importMatches (names : List (Nat × Str)) (bs : List ((Nat × Nat) × List (Nat × Nat))) :
-    Except String (List ((Str × Str) × List (Nat × Nat))) :=
-  bs.mapM (importMatchBlock names)
+def importMatches (names : List (Nat × Str)) : List ((Nat × Nat) × List (Nat × Nat)) →
+    Except String (List ((Str × Str) × List (Nat × Nat)))
+  | [] => Except.ok []
+  | b :: r =>
+    match importMatchBlock names b with
+    | Except.error e => Except.error e
+    | Except.ok x =>
+      match importMatches names r with
+      | Except.ok rest => Except.ok (x :: rest)
+      | Except.error e => Except.error e
 
 /-! ## the whole export and the whole import, composed from the pieces above -/
 
@@ -397,7 +448,7 @@ def exportSfm (flatten v2 : Bool) (rootBase : Str) (d : Dataset K α) : Except S
   match exportIntrinsics v2 cids d.cams with
   | Except.error e => Except.error e
   | Except.ok intr =>
-  match d.recs.mapM (exportView flatten sub cids vids) with
+  match exportViews flatten sub cids vids d.recs with
   | none => Except.error "KeyError"
   | some views =>
   match exportExtrinsics vids d.poses d.recs with
